@@ -15,7 +15,11 @@ pub fn sim_plan(rng: &mut Rng, faulty: bool) -> SimPlan {
     };
     let mut stalls = Vec::new();
     let mut eager = 0;
+    let mut after_recv = 0;
     if faulty {
+        if rng.chance(1, 2) {
+            after_recv = *rng.pick(&[50u32, 150, 300, 600]);
+        }
         let n = rng.below(3);
         for _ in 0..n {
             stalls.push(StallPlan {
@@ -35,6 +39,7 @@ pub fn sim_plan(rng: &mut Rng, faulty: bool) -> SimPlan {
         stalls,
         epoch_phase_ns: rng.below(SEC),
         max_steps: 200_000,
+        stall_after_recv_permille: after_recv,
     }
 }
 
